@@ -12,8 +12,11 @@ SILENT = App('$silent', (), ())
 
 class SilentOracle(Oracle):
     """The computation with Silent arguments erased (they are exempt by design)."""
+    static = False      # static graph hashes see through by-value wrappers and barriers structurally
 
     def edge_value(self, n, e, ps):
+        if e['k'] in ('byvalue', 'barrier') and self.static:
+            return self.edge_value(n, e['inner'], ps) if e['k'] == 'byvalue' else self.value(ps[0])
         if e['k'] in ('byvalue', 'impure', 'barrier'):
             # hashed by value: the identity of the computation is the actual value, Silent marks upstream included
             return Oracle(self.case, self.env).value(n)
@@ -57,13 +60,17 @@ def mutants(rng, case, k=6):
         n = c['nodes'][i]
         e = n['edge']
         inner = e['inner'] if e['k'] in ('byvalue', 'impure') else e
-        kind = rng.choice(['fn', 'const', 'swap', 'kw', 'wire', 'table', 'silent_pos'])
+        kind = rng.choice(['fn', 'const', 'swap', 'kw', 'wire', 'table', 'silent_pos', 'wrap'])
         what = None
         if kind == 'fn' and inner['k'] == 'fn':
             other = [f for f in fnames if f != inner['f'] and f not in case.get('impure', [])]
             if other:
                 inner['f'] = rng.choice(other)
                 what = 'fn'
+        elif kind == 'wrap' and inner['k'] == 'fn' and not inner['f'].startswith('W:') and inner['f'] not in case.get('impure', []) \
+                and inner['f'] not in [c[0] for c in case.get('const_fns', [])]:
+            inner['f'] = 'W:' + inner['f']      # a decorated version (functools.wraps) of the same function: another computation
+            what = 'wrap'
         elif kind == 'const' and e['k'] == 'const' and n['name'].startswith('n'):
             e['v'] = rng.choice([x for x in [0, 1, 'a', 'b', None, [1], 'q'] if x != e['v']])
             what = 'const'
@@ -164,6 +171,77 @@ def run_family(seed, max_nodes=12):
                 break
     nontrivial = sum(1 for k, items in groups.items() if len(items) >= 2)
     return evals, collisions, pyeq_only, {'variants': kinds, 'groups': len(groups), 'groups_with_pairs': nontrivial}
+
+
+class StaticOracle(SilentOracle):
+    static = True
+
+
+def run_family_static(seed, max_nodes=10):
+    """C06 at the engine level: one single-input base graph and its mutants; every node's STATIC hash (`Graph.hash()`);
+    graphs with equal static hashes must compute the same function of the input (Silent-erased oracle on 3 inputs)."""
+    rng = random.Random(seed)
+    kinds = {'fn': 10, 'ident': 2, 'const': 2, 'product': 2, 'barrier': 2, 'byvalue': 2,
+             'switch': 2, 'switch_branch': 1, 'switch_missing': 1}
+    for _ in range(20):
+        base = gen_graph(rng, max_nodes=max_nodes, malformed=0.0, kinds=kinds)
+        if sum(1 for n in base['nodes'] if n['edge'] is None) == 1:
+            break
+    else:
+        return 0, [], {}
+    base['impure'] = []
+    fam = [('base', base)] + mutants(rng, base)
+    world = SymWorld()
+    envs = [{'x0': v} for v in rng.sample(IDS + ['z', 0, 1, -1], 3)]
+    groups, evals, kinds_seen = {}, 0, {}
+    for what, case in fam:
+        kinds_seen[what] = kinds_seen.get(what, 0) + 1
+        try:
+            vm = RealVM(case, world)
+        except Exception:
+            continue
+        for out, nd in enumerate(case['nodes']):
+            if nd['edge'] is None or nd['name'].startswith('m'):
+                continue
+            try:
+                key = vm.graph(out).hash().value
+                hash(key)
+            except Exception:
+                continue
+            table, raw = [], []
+            for env in envs:
+                try:
+                    v = StaticOracle(case, env).value(out)
+                    raw.append(v)
+                    table.append(canon(val_to_json(v, world)))
+                except OErr as e:
+                    raw.append(('ERR', tuple(sorted(e.kinds))))
+                    table.append('ERR ' + ','.join(sorted(e.kinds)))
+                except TypeError:
+                    raw.append('?')
+                    table.append('?')
+            evals += 1
+            groups.setdefault(key, []).append((table, what, out, case, raw))
+    collisions = []
+    for key, items in groups.items():
+        first = items[0]
+        for it in items[1:]:
+            if it[0] != first[0] and '?' not in it[0] + first[0]:
+                a, b = ''.join(first[0]), ''.join(it[0])
+                if _silent_as_none(a) == _silent_as_none(b):
+                    continue        # Silent vs None (finding F9, reported under C05)
+                try:
+                    if it[4] == first[4]:
+                        continue    # equal under Python == (0 == False, 1 == True): finding F3, reported under C05
+                except Exception:
+                    pass
+                collisions.append({'hash': repr(key)[:300], 'envs': envs,
+                                   'a': {'variant': first[1], 'out': first[2], 'case': first[3], 'table': first[0]},
+                                   'b': {'variant': it[1], 'out': it[2], 'case': it[3], 'table': it[0]},
+                                   'msg': f'equal static graph hash for different functions of the input: {first[0]} vs {it[0]} '
+                                          f'(variant {it[1]})'[:500]})
+                break
+    return evals, collisions, kinds_seen
 
 
 def _silent_as_none(canon_text):
